@@ -286,7 +286,30 @@ def bounded(rep, tier):
     rep.bounded_rule = 'single-integration queries (plain, joins, sub-queries, union, CTE, grouping, window, alias/column names shadowing the integration name): original text vs FetchDataframeStep.query executed on sqlite3 (integration attached as schema int1)'
 
 
+
+def walker_dependency(rep, tier):
+    """C11 relies on the contract of query_traversal (C13). The walker obligations are re-evaluated here; a failure that is not a known finding of C13
+    is reported under this property too, because the rewrite / binding built on the walker is then no longer covered by the argument above."""
+    from contracts import C13
+    sub = type(rep)('C13', tier, C13.LEVEL)
+    C13.check(sub, tier)
+    n_ok = sum(1 for o in sub.obs if o.status == PROVED)
+    bad = sub.unlisted_failures()
+    und = [o for o in sub.obs if o.status == UNDECIDED]
+    for x in bad:
+        oid = 'C11.walker.' + x.id.split('.', 1)[1]
+        if hasattr(x, 'status'):
+            rep.failed(oid, x.engine, x.detail, function=x.function, clause=x.clause, replay=x.replay)
+        else:
+            rep.add_bounded(Bounded(oid, False, x.input, x.observed, x.expected, bound=x.bound))
+    for o in und:
+        rep.undecided('C11.walker.' + o.id.split('.', 1)[1], o.engine, o.detail, function=o.function)
+    if not bad and not und:
+        rep.proved('C11.walker', 'pysym', f'{n_ok} walker obligations of C13 hold (its {len(sub.obs) - n_ok} listed findings concern slots this property does not use)',
+                   function='mindsdb_sql.planner.utils:query_traversal', clause='the visitor is applied once to every node reachable through the slots this property uses; replacements land in place')
+
 def check(rep, tier):
+    walker_dependency(rep, tier)
     rep.dropped = 'method bodies read with ast.parse; the rewrite visitor is a nested closure executed by pysym'
     rep.assume('C13 coverage of identifiers by the walker', 'C10.strip for the qualifier edit', 'meaning preservation of the edit set under shadowing is NOT decided (bounded only)')
     rep.trust('pysym executor', 'sqlite3 as reference engine (bounded stand-in)')
